@@ -185,6 +185,7 @@ def replyTail (ci : Str) (b : Behav) (rest : Str) : Str :=
   | .inside _ => rest
   | .afterPrompt _ => '\n' :: prompt ++ rest
   | .after => rest
+  | .afterLine _ _ => rest
 
 theorem reply_split (ci : Str) (b : Behav) (rest : Str) (hc : CleanCmd ci) (hb : CleanBehav b) :
     ∃ u, replyFor ci b ++ rest = u ++ promptFull ++ replyTail ci b rest ∧ noPH u = true := by
@@ -245,6 +246,23 @@ theorem reply_split (ci : Str) (b : Behav) (rest : Str) (hc : CleanCmd ci) (hb :
     · have : noPH (u0 ++ bannerText b.msg ++ []) = true := by
         rw [noPH_banner _ _ _ hm.noNL, hn0]; decide
       simpa using this
+  | afterLine pre post =>
+    have hm := hb.msg (by rw [hf]; simp)
+    have hline : ci ++ ['\n'] ++ b.out = u0 ++ ['\n'] := by simpa using hu0
+    obtain ⟨u', hu'⟩ : ∃ u', u0 ++ nls (pre + 1) ++ bannerText b.msg ++ nls post = u' ++ ['\n'] := by
+      cases post with
+      | zero => exact ⟨u0 ++ nls (pre + 1) ++ (bannerHead ++ b.msg ++ lit "\n***"), by
+          rw [bannerText_snoc]; simp [nls]⟩
+      | succ k => exact ⟨u0 ++ nls (pre + 1) ++ bannerText b.msg ++ nls k, by
+          rw [← nls_add k 1]; simp [nls]⟩
+    have hn' : noPH u' = true := by
+      apply noPH_drop_last
+      rw [← hu', noPH_banner _ _ _ hm.noNL, noPH_append_nls, hn0, router_not_prefix_nls, noPH_nls']; rfl
+    refine ⟨u', ?_, hn'⟩
+    have e : ci ++ ['\n'] ++ b.out ++ nls pre ++ bannerText b.msg ++ nls post ++ prompt ++ rest =
+        (u0 ++ nls (pre + 1) ++ bannerText b.msg ++ nls post) ++ prompt ++ rest := by
+      rw [hline, nls_succ]; simp
+    rw [e, hu', promptFull_eq]; simp
 
 /-- banner placements that leave ONE prompt in the answer -/
 def singlePrompt (f : Form) : Bool :=
@@ -428,6 +446,10 @@ theorem cancel_reply_shape (b : Behav) :
     exact ⟨cancelCmd ++ ['\n'] ++ lit "\n\n***\n*** ",
       lit "\n***" ++ bannerText b.msg ++ ['\n'] ++ routerName, by
       simp only [hd, hp]; simp [List.append_assoc]⟩
+  | afterLine pre post =>
+    exact ⟨cancelCmd ++ ['\n'] ++ lit "\n\n***\n*** ",
+      lit "\n***\n" ++ nls pre ++ bannerText b.msg ++ nls post ++ routerName, by
+      simp only [ho, hp]; simp [List.append_assoc]⟩
 
 /-- deferred `reload cancel` with a banner of any form on its line, any left-over bytes -/
 theorem cancel_wide (st : St SimSt) (hparts : st.dev.parts = []) (hocc : st.dev.occ = armedMark) :
